@@ -38,6 +38,7 @@ type impTarget struct {
 	elem               string   // name of a type treated as an ABSTRACT element type F with operations mul / one / inv (field level)
 	abstract           []string // package-local functions called as ABSTRACT parameters (hash arguments dropped); their source text is
 	// emitted as `abstractSrc` so that an edit of them breaks the proofs that pin it
+	more        []string // further files of the package whose functions may be named in funcs
 	methodCalls bool // methods may call the methods translated before them on their receiver; a method that never assigns its
 	// receiver returns its results only; a slice result for which some return gives the literal nil is an Option
 	pre map[string][]string // unexported function -> pointer paths (receiver paths / parameter names) that must be non-nil at entry:
@@ -53,7 +54,8 @@ var impTargets = []impTarget{
 	{dir: "accumulator/merkletree", file: "verify.go", ns: "MerkleVerify", out: "Imp/MerkleVerify.lean", funcs: []string{"VerifyProof"},
 		abstract: []string{"leafSum", "nodeSum", "sum"}},
 	{dir: "accumulator/merkletree", file: "tree.go", ns: "MerkleTree", out: "Imp/MerkleTree.lean",
-		funcs:    []string{"New", "joinSubTrees", "joinAllSubTrees", "Root", "Push", "Prove", "SetIndex", "PushSubTree"},
+		funcs:    []string{"New", "joinSubTrees", "joinAllSubTrees", "Root", "Push", "Prove", "SetIndex", "PushSubTree", "ReadAll"},
+		more:     []string{"readers.go"},
 		abstract: []string{"leafSum", "nodeSum", "sum"}, methodCalls: true,
 		pre:      map[string][]string{"joinSubTrees": {"a", "b"}, "joinAllSubTrees": {"t.head"}}},
 }
@@ -121,6 +123,7 @@ type impPkg struct {
 	absDecl    map[string]*ast.FuncDecl
 	absCalled  []string
 	translated map[string]*impSig // pure package-local functions translated so far (callable from later ones)
+	usesReader bool                // some translated function has an io.Reader parameter
 	listNext   map[string]string   // struct S with a field `next *S`: name of that field (S is the node type of a singly linked list)
 	methods    map[string]*impMeth // methods translated so far (callable on the receiver from later ones)
 	callers    map[string][]string // function / method name -> names of the package functions whose body calls it
@@ -189,6 +192,11 @@ func (p *impPkg) goType(e ast.Expr) *ity {
 	case *ast.SelectorExpr:
 		if id, ok := v.X.(*ast.Ident); ok && id.Name == "hash" && v.Sel.Name == "Hash" {
 			return tyHash
+		}
+		if id, ok := v.X.(*ast.Ident); ok && id.Name == "io" && v.Sel.Name == "Reader" {
+			// a reader is read as a finite byte stream that never fails: the value is the part not yet read (see `readFull`)
+			p.usesReader = true
+			return &ity{k: "reader"}
 		}
 		if id, ok := v.X.(*ast.Ident); ok && id.Name == "big" && v.Sel.Name == "Int" {
 			return &ity{k: "bigint"}
@@ -263,6 +271,8 @@ func (p *impPkg) lty(t *ity, qual bool) string {
 		return "UInt8"
 	case "hash":
 		return "Hash"
+	case "reader":
+		return "Bytes"
 	case "error":
 		return "Err"
 	case "events":
@@ -304,7 +314,7 @@ func (p *impPkg) zero(t *ity) string {
 		return "0"
 	case "bool":
 		return "false"
-	case "string", "slice", "events", "lptr":
+	case "string", "slice", "events", "lptr", "reader":
 		return "[]"
 	case "nslice":
 		return "none"
@@ -397,6 +407,20 @@ func loadImp(tg impTarget) *impPkg {
 			}
 		case *ast.FuncDecl:
 			p.funcs[v.Name.Name] = v
+		}
+	}
+	for _, m := range tg.more {
+		mf, err := parser.ParseFile(p.fset, filepath.Join(repo, tg.dir, m), nil, parser.ParseComments)
+		if err != nil {
+			die("imp: parse: %v", err)
+		}
+		for _, d := range mf.Decls {
+			if fd, ok := d.(*ast.FuncDecl); ok {
+				if p.funcs[fd.Name.Name] != nil {
+					die("imp: %s: %s declared twice", tg.dir, fd.Name.Name)
+				}
+				p.funcs[fd.Name.Name] = fd
+			}
 		}
 	}
 	if len(tg.pre) > 0 {
@@ -743,7 +767,7 @@ func (p *impPkg) translateFunc(name string) string {
 		b.WriteString(h + "\n")
 	}
 	pos := p.fset.Position(fd.Pos())
-	fmt.Fprintf(&b, "/-- %s/%s line %d: `func %s` -/\ndef %s%s %s : %s :=\n%s\n\n", p.tg.dir, p.tg.file, pos.Line, name, lname(name), whParams(*u), strings.Join(params, " "), f.retTy(), body)
+	fmt.Fprintf(&b, "/-- %s/%s line %d: `func %s` -/\ndef %s%s %s : %s :=\n%s\n\n", p.tg.dir, filepath.Base(pos.Filename), pos.Line, name, lname(name), whParams(*u), strings.Join(params, " "), f.retTy(), body)
 	return b.String()
 }
 
@@ -879,9 +903,15 @@ func runImp() {
 				}
 			}
 		}
+		var fb strings.Builder
 		for _, fn := range tg.funcs {
-			b.WriteString(p.translateFunc(fn))
+			fb.WriteString(p.translateFunc(fn))
 		}
+		if p.usesReader {
+			b.WriteString("/-- `n, err := io.ReadFull(r, buf)` for a reader that is a FINITE BYTE STREAM WHICH NEVER FAILS (a bytes.Reader; a reader that returns\nother errors or blocks is outside the model): `r` is the part of the stream not yet read; result = (rest of the stream, contents of\nbuf afterwards, n, err).  An empty buffer reads nothing and succeeds; at the end of the stream io.EOF; fewer bytes left than the\nbuffer holds: they are read and the error is io.ErrUnexpectedEOF. -/\n")
+			b.WriteString("def readFull (r : Bytes) (buf : Bytes) : Bytes × Bytes × Int × Err :=\n  if buf.length = 0 then (r, buf, 0, Err.nil)\n  else if r.length = 0 then (r, buf, 0, Err.sentinel \"io.EOF\")\n  else if r.length < buf.length then ([], r ++ buf.drop r.length, len r, Err.sentinel \"io.ErrUnexpectedEOF\")\n  else (r.drop buf.length, r.take buf.length, len buf, Err.nil)\n\n")
+		}
+		b.WriteString(fb.String())
 		fmt.Fprintf(&b, "end GV.Gen.Imp.%s\n", tg.ns)
 		writeFile(tg.out, b.String())
 		dieHook = nil
